@@ -24,6 +24,13 @@ func (ex *Exec) explore(init []*State, stop func(*State) bool) []*State {
 			}
 			extra := ex.safeStep(st)
 			work = append(work, extra...)
+			if ex.cfg.Verbose && ex.rep.Steps%200000 == 0 && ex.sol != nil {
+				site := "?"
+				if !st.ended && len(st.thread().stack) > 0 {
+					site = ex.site(st.thread().top())
+				}
+				fmt.Fprintf(os.Stderr, "  progress: steps=%d forks=%d lazy=%d merges=%d mergefail=%d queries=%d (%.1fs) depth=%d work=%d pc=%d at %s\n", ex.rep.Steps, ex.rep.Forks, ex.rep.LazyForks, ex.rep.Merges, ex.rep.MergeFails, ex.sol.Stats.Queries, ex.sol.Stats.Dur.Seconds(), ex.depth, len(work), len(st.pc), site)
+			}
 		}
 	}
 	return out
@@ -38,9 +45,14 @@ func (ex *Exec) safeStep(st *State) (extra []*State) {
 					site = ex.site(st.thread().top())
 				}
 				msg := "unsupported: " + ep.msg + " at " + site
-				ex.rep.Unsupported = append(ex.rep.Unsupported, msg)
-				if !st.ended {
-					ex.endPath(st, "unsupported")
+				if ex.sol != nil && !ex.pathFeasible(st) {
+					st.ended = true
+					ex.rep.Infeasible++
+				} else {
+					ex.rep.Unsupported = append(ex.rep.Unsupported, msg)
+					if !st.ended {
+						ex.endPath(st, "unsupported")
+					}
 				}
 				extra = nil
 				return
@@ -354,6 +366,9 @@ func (ex *Exec) mergePair2(a, b *State) (*State, string) {
 		ns.stub = nstub
 	}
 	ns.pc = append(append([]*Term{}, a.pc[:k]...), ex.ctx.Or(cA, cB))
+	if ns.model == nil {
+		ns.model = b.model
+	}
 	ns.reached = unionStr(a.reached, b.reached)
 	ns.notes = unionStr(a.notes, b.notes)
 	if b.steps > ns.steps {
